@@ -12,6 +12,7 @@ import (
 	"fmt"
 	"sync"
 
+	"github.com/golang/protobuf/proto"
 	xctx "github.com/xuperchain/xupercore/kernel/common/xcontext"
 	common "github.com/xuperchain/xupercore/kernel/consensus/base/common"
 	bft "github.com/xuperchain/xupercore/kernel/consensus/base/driver/chained-bft"
@@ -284,7 +285,25 @@ func (w *World) proposalMsg(c *Case, l int, q int, commit bool, by int) *protos.
 	if _, err := w.m.cb[by].SignProposalMsg(pm); err != nil {
 		panic(err)
 	}
-	return p2p.NewMessage(protos.XuperMessage_CHAINED_BFT_NEW_PROPOSAL_MSG, pm, p2p.WithBCName(bcName))
+	return netMsg(protos.XuperMessage_CHAINED_BFT_NEW_PROPOSAL_MSG, pm)
+}
+
+// netMsg is p2p.NewMessage without its log-id generator (which re-seeds the global math/rand
+// source under a global lock on every call): same header, payload, compression step, checksum.
+func netMsg(typ protos.XuperMessage_MessageType, body proto.Message) *protos.XuperMessage {
+	msg := &protos.XuperMessage{
+		Header: &protos.XuperMessage_MessageHeader{Version: p2p.MessageVersion3, Bcname: bcName, Logid: "verif-c15", Type: typ,
+			EnableCompress: false, ErrorType: protos.XuperMessage_NONE},
+		Data: &protos.XuperMessage_MessageData{},
+	}
+	data, err := proto.Marshal(body)
+	if err != nil {
+		panic(err)
+	}
+	msg.Data.MsgInfo = data
+	p2p.Compress(msg)
+	msg.Header.DataCheckSum = p2p.Checksum(msg)
+	return msg
 }
 
 // voteMsg is validator v's vote for label l.
@@ -297,5 +316,5 @@ func (w *World) voteMsg(c *Case, l int, v int) *protos.XuperMessage {
 	vb, _ := json.Marshal(vi)
 	lb, _ := json.Marshal(&bft.LedgerCommitInfo{VoteInfoHash: labelIDs[l]})
 	vm := &bftpb.VoteMsg{VoteInfo: vb, LedgerCommitInfo: lb, Signature: []*bftpb.QuorumCertSign{w.m.sig(v, labelIDs[l])}}
-	return p2p.NewMessage(protos.XuperMessage_CHAINED_BFT_VOTE_MSG, vm, p2p.WithBCName(bcName))
+	return netMsg(protos.XuperMessage_CHAINED_BFT_VOTE_MSG, vm)
 }
